@@ -35,6 +35,7 @@ struct Dump {
     bool repaired = false;        // the open took the repair path (file was opened for writing)
     std::vector<CallRec> calls;   // one per plan.reads entry
     std::vector<CallRec> cold;    // for reads with cold=1: the same call on a fresh reader
+    std::vector<CallRec> retry;   // retry_failed: a call that returned an error, issued once more straight away (a caller's natural reaction)
     std::map<int, int64_t> sig_offset;   // sample_id_offset per signal as this reader reports it (asked after the plan's reads)
     uint64_t hash() const;
 };
@@ -45,7 +46,7 @@ void apply_knobs(const Plan &p);                               // hook globals (
 WriterResult write_sync(const Plan &p, const std::string &path, bool log_writes);
 WriterResult write_twr(const Plan &p, const std::string &path, bool log_writes);
 // reader program; spawns a task
-RunStatus read_dump(const Plan &p, const std::string &path, Dump &d, bool with_cold);
+RunStatus read_dump(const Plan &p, const std::string &path, Dump &d, bool with_cold, bool retry_failed = false);
 RunStatus mrb_driver(const Plan &p, std::vector<std::string> &errors, uint64_t *n_ok, uint64_t *n_fail, uint64_t *n_pop);
 // copy
 RunStatus copy_file(const std::string &src, const std::string &dst, int *rc);
